@@ -15,6 +15,7 @@ quantities behind two or more roundings (t-parameters of parallel_lines_paramete
 linearization_error) are compared with a small relative tolerance.  Decisions are compared exactly.
 """
 import itertools
+import os
 import math
 import sys
 import warnings
@@ -1499,13 +1500,17 @@ def main():
         drv = C.Driver()
         ix = fam.ask(drv, _prep(case))
         replies = drv.run()
-        fam.check(_prep(case), [replies[i] for i in ix])
+        try:
+            fam.check(_prep(case), [replies[i] for i in ix])
+        except Exception as exc:     # noqa: BLE001
+            res.failure("raised:%s:%s" % (fam.name, type(exc).__name__), "%s: raised %r" % (fam.name, exc), rep)
         res.emit()
         bad = bool(res.failures)
         print("replay: " + ("property fails on this input: " + res.failures[0]["what"] if bad else "property holds on this input"))
         sys.exit(1 if bad else 0)
 
     import time
+    raised_seen = {}
     for fam in fams:
         t_fam = time.time()
         cases = iter(fam.cases())
@@ -1518,7 +1523,23 @@ def main():
             idx = [fam.ask(drv, c) for c in chunk]
             replies = drv.run() if drv.lines else []
             for c, ix in zip(chunk, idx):
-                fam.check(c, [replies[i] for i in ix])
+                try:
+                    fam.check(c, [replies[i] for i in ix])
+                except Exception as exc:     # noqa: BLE001
+                    # an exception raised INSIDE the library on an input of the family is a failing input of the property
+                    # (the predicates are total on these inputs); anything else is a harness problem and stops the script
+                    import traceback
+                    tb = traceback.extract_tb(exc.__traceback__)
+                    pkg = os.environ.get("BEZIER_PKG", "\0")
+                    if not any(fr.filename.startswith(pkg) for fr in tb):
+                        raise
+                    where = next(fr for fr in reversed(tb) if fr.filename.startswith(pkg))
+                    if raised_seen.get((fam.name, type(exc).__name__), 0) < 3:
+                        raised_seen[(fam.name, type(exc).__name__)] = raised_seen.get((fam.name, type(exc).__name__), 0) + 1
+                        rcase = fam.rc(c)
+                        res.failure("raised:%s:%s" % (fam.name, type(exc).__name__),
+                                    "%s: the library raised %r in %s (%s:%d) on an input of the family" %
+                                    (fam.name, exc, where.name, os.path.basename(where.filename), where.lineno), rcase)
         if hasattr(fam, "finish"):
             fam.finish()
         res.dist.setdefault("seconds", {})[fam.name] = round(time.time() - t_fam, 1)
